@@ -111,12 +111,48 @@ async def sk_store_over_mixed_recent(hp, w, rnd, ctx):
     w.check_disk("INBOX")
 
 
+async def sk_flags_survive_a_pack(hp, w, rnd, ctx):
+    """Messages with distinct flag sets, expunges from the middle so that the
+    folder qualifies for packing (threshold lowered for this script), idle time
+    so that the management task packs: every message keeps exactly its flags,
+    in FETCH, SEARCH and on disk, and a STORE after the pack lands on the
+    message it addresses."""
+    a = w.session()
+    b2 = w.session()
+    sets = [["\\Seen"], ["\\Flagged"], [], ["kw1", "\\Seen"], ["\\Answered"], ["\\Draft", "\\Seen"], ["$Forwarded"], ["\\Seen", "\\Flagged", "kw1"], [], ["\\Seen"], ["NonJunk"], ["\\Answered", "\\Seen"]]
+    for fl in sets:
+        await w.op_append(a, "INBOX", flags=fl)
+    await w.op_select(a, "INBOX")
+    await w.op_select(b2, "INBOX")
+    await w.op_store(a, [2, 3, 6, 9], "add", ["\\Deleted"])
+    await w.op_expunge(a)
+    await w.op_noop(b2)
+    await w.observe()
+    packs0 = w.stats.get("packs", 0)
+    for _ in range(6):
+        await w.rig.advance(5)  # idle: the management task may pack now
+    await w.op_noop(a)
+    await w.op_noop(b2)
+    await w.observe()
+    w.check_disk("INBOX")
+    for key in ("SEEN", "FLAGGED", "ANSWERED", "KEYWORD kw1", "UNSEEN", "DRAFT"):
+        await w.op_search_flag(a, key)
+    await w.op_store(a, [3], "add", ["\\Flagged"])
+    await w.op_store(b2, [5, 6], "replace", ["kw1"])
+    await w.op_noop(a)
+    await w.observe()
+    w.check_disk("INBOX")
+    await w.restart()
+    await w.observe()
+
+
 class C04(HistProp):
     prop = PROP
     names = ["INBOX", "other"]
-    skeletons = [sk_all_single_message_flag_sets, sk_store_semantics, sk_collision_keywords, sk_store_over_mixed_recent]
+    pack_limits = [100, 100, 100, 100, 4, 100, 6]
+    skeletons = [sk_all_single_message_flag_sets, sk_store_semantics, sk_collision_keywords, sk_store_over_mixed_recent, sk_flags_survive_a_pack]
     weights = {"store": 16, "uid_store": 10, "store_del": 3, "fetch": 6, "fetch_body": 6, "uid_fetch": 4, "append": 8, "copy": 5, "uid_copy": 2, "move": 2, "noop": 10,
-               "search_flag": 8, "deliver": 3, "expunge": 2, "idle": 2, "examine": 2, "deliver_stalled": 2}
+               "search_flag": 8, "deliver": 3, "expunge": 3, "idle": 2, "examine": 2, "deliver_stalled": 2, "advance": 2}
     opts = {"flag_pool": ORDINARY, "examine_prob": 0.1}
     observer_cadence = [1, 2, 0]
     initial = (1, 6)
